@@ -395,6 +395,30 @@ func killMatrix(spec *propSpec) []mutantResult {
 			cands = append(cands, cand{"seeded/" + e.Name(), filepath.Join(root, "seeded", e.Name(), "patch.diff"), "mutant"})
 		}
 	}
+	// behaviour-preserving refactorings written by independent sub-agents (/verif/equiv): applied to every property one
+	// of whose anchor files they touch; the checks must stay silent
+	anchors := propertyAnchorFiles(spec.ID)
+	if ents, err := os.ReadDir(filepath.Join(root, "equiv")); err == nil {
+		for _, e := range ents {
+			if !strings.HasSuffix(e.Name(), ".diff") {
+				continue
+			}
+			path := filepath.Join(root, "equiv", e.Name())
+			b, err := os.ReadFile(path)
+			if err != nil {
+				continue
+			}
+			touches := false
+			for _, pf := range parseUnifiedDiff(string(b)) {
+				if anchors[pf.Path] {
+					touches = true
+				}
+			}
+			if touches {
+				cands = append(cands, cand{"equiv/" + e.Name(), path, "equivalent"})
+			}
+		}
+	}
 	sort.Slice(cands, func(i, j int) bool { return cands[i].name < cands[j].name })
 	var out []mutantResult
 	for _, cd := range cands {
@@ -449,6 +473,29 @@ func killMatrix(spec *propSpec) []mutantResult {
 			r.Status = "fired"
 		}
 		out = append(out, r)
+	}
+	return out
+}
+
+// propertyAnchorFiles: anchors.files of the property in properties.jsonl.
+func propertyAnchorFiles(id string) map[string]bool {
+	out := map[string]bool{}
+	b, err := os.ReadFile(filepath.Join(verifRoot(), "properties.jsonl"))
+	if err != nil {
+		return out
+	}
+	for _, l := range strings.Split(string(b), "\n") {
+		var p struct {
+			ID      string `json:"id"`
+			Anchors struct {
+				Files []string `json:"files"`
+			} `json:"anchors"`
+		}
+		if json.Unmarshal([]byte(l), &p) == nil && p.ID == id {
+			for _, f := range p.Anchors.Files {
+				out[f] = true
+			}
+		}
 	}
 	return out
 }
